@@ -1,5 +1,8 @@
 // World: qhashtbl (C05; container for C11-C15)
 #include "wutil.h"
+#ifndef QSIM_STRUCT
+#define QSIM_STRUCT 1      // 0: this adapter is built without reading any private struct field (API-level oracles only)
+#endif
 #include <algorithm>
 #include <inttypes.h>
 extern "C" {
@@ -100,18 +103,22 @@ struct HashWorld : World {
     }
     void sut_destroy(Ctx &) override { if (t) { InSut s; t->free(t); } t = nullptr; }
     void sut_abandon() override { t = nullptr; }
-    void *sut_mutex() override { return t ? t->qmutex : nullptr; }
+    void *sut_mutex() override { return nullptr; }
     bool sut_user_lock() override { InSutLock s; t->lock(t); return true; }
     void sut_force_unlock() override { InSutLock s; t->unlock(t); }
     void sut_probe(Ctx &) override { InSut s; t->get(t, "probe-key", nullptr, false); }
 
     // position of a key inside its collision chain (reads public struct fields): 0 head, 1 middle, 2 tail, 3 only
     int chain_pos(const Bytes &k) {
+#if !QSIM_STRUCT
+        (void)k; return -1;
+#else
         if (mt) return -1;
         uint32_t h = qhashmurmur3_32(k.c_str(), k.size());
         qhashtbl_obj_t *o = t->slots[h % t->range], *prev = nullptr;
         for (; o; prev = o, o = o->next) if (!strcmp(o->name, k.c_str())) { if (!prev && !o->next) return 3; if (!prev) return 0; return o->next ? 1 : 2; }
         return -1;
+#endif
     }
 
     Result sut_apply(const Op &op, Ctx &x) override {
@@ -182,7 +189,7 @@ struct HashWorld : World {
             if (op.k == H_LOCKEDWALK) { InSutLock s; t->lock(t); }
             qhashtbl_obj_t o; memset(&o, 0, sizeof o);
             std::vector<Bytes> seen; bool failed = false; int fired_seen = sim_fault_fired(), retries = 0;
-            size_t guard = t->num * 2 + 8;
+            size_t guard = t->size(t) * 2 + 8;
             for (;;) {
                 bool more; { InSut s; more = t->getnext(t, &o, newmem); }
                 if (!more && newmem && sim_fault_fired() > fired_seen && retries < 1) { fired_seen = sim_fault_fired(); retries++; x.st.add("probe.walk_step_retried_after_enomem"); continue; }
@@ -220,6 +227,7 @@ struct HashWorld : World {
     }
 
     void sut_struct(Ctx &x) override {
+#if QSIM_STRUCT
         if (!t) return;
         size_t cnt = 0; std::set<Bytes> names;
         for (size_t i = 0; i < t->range; i++) {
@@ -235,6 +243,9 @@ struct HashWorld : World {
         }
         if (cnt != t->num) x.fail("structure", "struct", "chains hold " + num((long long)cnt) + " keys, size() says " + num((long long)t->num));
         x.st.add("struct.checks");
+#else
+        (void)x;
+#endif
     }
 
     std::string render(const Op &op) const override {
